@@ -1,4 +1,4 @@
-import CentrifugeVerif.Model.ConnProtoLifecycle
+import CentrifugeVerif.Proofs.ConnProtoLifecycle
 /-!
 # C08 — connection lifecycle callbacks fire once and in order; shutdown
 
@@ -40,7 +40,7 @@ theorem inv_init : Inv {} := by
 theorem step_inv (s s' : St) (l : Label) (h : Inv s) (hs : step s l = some s') : Inv s' := by
   obtain ⟨hok, hcs, hce, hds, hreg, hcl, hconn, hincb, hprev, htk, htkreg⟩ := h
   cases l <;> simp only [step] at hs
-  case connectCmdOk k =>
+  case connectCmdOk =>
     split at hs <;> cases hs
     rename_i hc; simp at hc
     constructor <;> simp_all [wPrev, wEarly]
@@ -289,6 +289,25 @@ theorem connect_first (ls : List Label) (s : St) (hr : run {} ls = some s)
   · exact ds_cs l1 hok1 ((seenDS_iff l1).mp h.2)
   · exact (seenCS_iff l1).mp h.2
 
+/-- `callbacks` (unsubscribe part): in every interleaving of subscribes, racing unsubscribes
+(client command, server API, expiry …), `close` calls and the connect thread, the unsubscribe
+callback of a subscription `n` runs at most once; it ran exactly once for every subscription that
+was removed from the connection's table while the handlers were registered (`endedReg`), as soon
+as the thread that removed it has delivered what it owes (`owes n s = 0`, e.g. at quiescence);
+and it only ever runs for a subscription that was established and is gone. -/
+theorem unsubscribe_exactly_once (ls : List Label) (s : St) (hr : run {} ls = some s) (n : Nat) :
+    cntU n s ≤ 1 ∧ (n ∈ s.endedReg → owes n s = 0 → cntU n s = 1) ∧
+    (0 < cntU n s → n < s.nextSub ∧ n ∉ s.subs) := by
+  have h := run_uinv ls {} s uinv_init hr
+  refine ⟨by have := h.once n; omega, ?_, ?_⟩
+  · intro hm ho; have := (h.ended n hm).2; omega
+  · intro hp
+    constructor
+    · by_cases hlt : n < s.nextSub
+      · exact hlt
+      · have := (h.fresh n (by omega)).2.1; omega
+    · intro hm; have := (h.live n hm).2.1; omega
+
 /-- `shutdown_final_partial`: when `Node.Shutdown` has completed and the connection was registered
 in the hub when the shutdown took its snapshot, the connection is closed — and stays closed in
 every continuation (it can never become connected again).
@@ -351,15 +370,15 @@ theorem shutdown_final_partial (ls1 ls2 : List Label) (s1 s : St)
 yet in the hub; after `Shutdown` has returned the connect command still goes through and the
 connection becomes connected. -/
 theorem connect_after_shutdown :
-    ∃ s, run {} [.shutdownSnapshot, .shutdownDone, .connectCmdOk 0, .triggerAcquire, .triggerEnd] = some s ∧
+    ∃ s, run {} [.shutdownSnapshot, .shutdownDone, .connectCmdOk, .triggerAcquire, .triggerEnd] = some s ∧
       s.shut = .done ∧ s.status = .connected := ⟨_, rfl, by decide, by decide⟩
 
 /-! non-vacuity -/
-example : ∃ s, run {} [.connectCmdOk 1, .triggerAcquire, .triggerEnd, .subscribe, .tickAcquire, .tickAliveStart,
+example : ∃ s, run {} [.connectCmdOk, .subscribe, .triggerAcquire, .triggerEnd, .subscribe, .tickAcquire, .tickAliveStart,
     .closeTry, .tickAliveEnd, .tickRelease, .wAcquirePresence, .wRemove, .wCb, .wRemove, .wCb, .wDisc, .wDiscEnd] = some s ∧
     s.log = [.connectStart, .connectEnd, .aliveStart, .aliveEnd, .unsub 0, .unsub 1, .discStart, .discEnd] :=
   ⟨_, rfl, by decide⟩
-example : ∃ s1 s, run {} [.connectCmdOk 0, .triggerAcquire, .triggerEnd, .shutdownSnapshot] = some s1 ∧
+example : ∃ s1 s, run {} [.connectCmdOk, .triggerAcquire, .triggerEnd, .shutdownSnapshot] = some s1 ∧
     s1.shut = .snapshotTaken true ∧ run s1 [.closeTry, .shutdownDone] = some s ∧ s.shut = .done :=
   ⟨_, _, rfl, by decide, rfl, by decide⟩
 
